@@ -223,7 +223,7 @@ func runConcOwned(c ConcCase) (*concRun, error) {
 	r.gc = gc
 	var pool websocket.BufferPool
 	if c.W.Pool {
-		pool = &lockedPool{}
+		pool = &pausePool{gc: gc}
 	}
 	conn, err := NewConnOver(c.W, pool, gc)
 	if err != nil {
@@ -244,6 +244,8 @@ func runConcOwned(c ConcCase) (*concRun, error) {
 			start(a.Arg % len(acts))
 		case "grant":
 			gc.Grant()
+		case "fail":
+			gc.GrantErr(xport.ErrInjected)
 		case "sleep":
 			time.Sleep(time.Duration(a.Arg) * time.Millisecond)
 		case "close":
@@ -306,6 +308,17 @@ func runConcOwned(c ConcCase) (*concRun, error) {
 	}
 	return r, nil
 }
+
+// pausePool makes BufferPool.Get/Put scheduling points of the owned schedule:
+// the caller is held until the scheduler grants it, so other actors can be run
+// "right after the connection released its buffer".
+type pausePool struct {
+	inner lockedPool
+	gc    *xport.GateConn
+}
+
+func (p *pausePool) Get() interface{} { p.gc.Pause(); return p.inner.Get() }
+func (p *pausePool) Put(v interface{}) { p.gc.Pause(); p.inner.Put(v) }
 
 // lockedPool is a mutex-guarded LIFO pool for concurrent legs.
 type lockedPool struct {
@@ -408,6 +421,27 @@ func judgeConc(c ConcCase, r *concRun, o *Obs) error {
 		}
 	}
 	wrote, writes, overlap := r.gc.Snapshot()
+	failedAt, failSeq := r.gc.FailedAt, r.gc.FailSeq
+	if failedAt >= 0 {
+		// C10 under concurrency: after a transport write failed nothing more is
+		// written and every later (or queued) write-side call fails
+		if len(writes) > failedAt {
+			return fmt.Errorf("a transport write failed, yet %d more writes reached the transport afterwards (first: %s) - not fail-stop under this schedule", len(writes)-failedAt, abbrev(writes[failedAt].Data))
+		}
+		if r.tw != nil {
+			for _, cl := range r.tw.Calls {
+				if cl.StartSeq > failSeq && isMessageLevel(cl.API) && cl.Err == nil {
+					return fmt.Errorf("step %d %s started after a transport write had failed and succeeded", cl.Step, cl.API)
+				}
+			}
+		}
+		for i, cr := range r.ctl {
+			if cr.startSeq > failSeq && cr.err == nil {
+				return fmt.Errorf("WriteControl caller %d started after a transport write had failed and succeeded", i)
+			}
+		}
+		r.appClosed = true // from here on only the lenient (prefix) wire rules apply
+	}
 	if overlap {
 		return errors.New("two goroutines were inside the transport's Write at the same time: frame writes are not serialised")
 	}
@@ -654,7 +688,8 @@ func judgeConc(c ConcCase, r *concRun, o *Obs) error {
 	o.ClassIf(contended, "lock_contended")
 	o.ClassIf(timeouts > 0, "writecontrol_timed_out")
 	o.ClassIf(closeIdx >= 0, "close_frame_sent")
-	o.ClassIf(r.appClosed, "conn_Close_called")
+	o.ClassIf(r.appClosed && failedAt < 0, "conn_Close_called")
+	o.ClassIf(failedAt >= 0, "transport_write_failed")
 	o.ClassIf(c.Free, "free_running")
 	o.Class(fmt.Sprintf("ctl_actors_%d", len(c.Ctl)))
 	if contended {
